@@ -37,9 +37,14 @@ impl Response {
             })
         });
 
-        let body = if let Some(field) =
-            self.fields.iter().find_map(ResponseField::as_raw_body_field)
-        {
+        let raw_body_field = self.fields.iter().find_map(ResponseField::as_raw_body_field);
+
+        // A raw body is not JSON, its content type is the one of the header field, if any.
+        let json_content_type = raw_body_field.is_none().then(|| {
+            quote! { .header(#http::header::CONTENT_TYPE, "application/json") }
+        });
+
+        let body = if let Some(field) = raw_body_field {
             let field_name = field.ident.as_ref().expect("expected field to have an identifier");
             quote! { #ruma_common::serde::slice_to_buf(&self.#field_name) }
         } else {
@@ -70,7 +75,7 @@ impl Response {
                 ) -> ::std::result::Result<#http::Response<T>, #ruma_common::api::error::IntoHttpError> {
                     let mut resp_builder = #http::Response::builder()
                         .status(#http::StatusCode::#status_ident)
-                        .header(#http::header::CONTENT_TYPE, "application/json");
+                        #json_content_type;
 
                     if let Some(mut headers) = resp_builder.headers_mut() {
                         #(#serialize_response_headers)*
